@@ -247,6 +247,77 @@ def h_every_linter(ctx):
                 name=name, still_there=[list(k) for k in (ka - want)][:3], wrongly_removed=[list(k) for k in (want - ka)][:3])
 
 
+# ------------------------------------------------------------------ K4: linter-level ignore patterns
+IGNORE_SECTIONS = (   # documented section name per trigger (docs/configuration.md: "All linters support the ignore field")
+    ("magic-numbers", "magic-numbers.", "magic.py"), ("magic-numbers", "magic-numbers.", "magic.ts"), ("magic-numbers", "magic-numbers.", "magic.rs"),
+    ("nesting", "nesting.", "nest.py"), ("nesting", "nesting.", "nest.ts"), ("srp", "srp.", "srp.py"), ("srp", "srp.", "srp.rs"),
+    ("dry", "dry.", "dup1.py"), ("print-statements", "improper-logging.", "printy.py"), ("improper-logging", "improper-logging.", "printy.js"),
+    ("method-property", "method-property.", "methprop.py"), ("stateless-class", "stateless-class.", "stateless.py"),
+    ("collection-pipeline", "collection-pipeline.", "pipeline.py"), ("lbyl", "lbyl", "lbyl.py"), ("cqs", "cqs", "cqs.py"),
+    ("performance", "performance.", "concat.py"), ("unwrap-abuse", "unwrap-abuse", "unwrap.rs"), ("clone-abuse", "clone-abuse", "cloney.rs"),
+    ("blocking-async", "blocking-async", "blocking.rs"), ("stringly-typed", "stringly-typed.", "strg1.py"), ("file-header", "file-header.", "magic.py"),
+)
+
+
+def h_linter_ignore(ctx):
+    import src.linter_config.ignore as ign
+    from src.core.config_parser import _normalize_config_keys
+    from src.orchestrator.core import Orchestrator
+    section, prefix, tname = ctx.pick("linter_and_trigger", IGNORE_SECTIONS)
+    form = ctx.pick("pattern_form", ("**/name", "dir/**", "exact-relative", "substring", "non-matching"))
+    spelled = section if ctx.pick("spelling", ("hyphen", "underscore")) == "hyphen" else section.replace("-", "_")
+    d = _proj()
+    texts = {}
+    if tname == "dup1.py":
+        texts = dict(triggers.DUP_FILES)
+    elif tname == "strg1.py":
+        texts = dict(triggers.STRINGLY_FILES)
+    else:
+        texts = {tname: triggers.T[tname][3]}
+    stem = tname.rsplit(".", 1)[0]
+    pattern = {"**/name": "**/" + tname, "dir/**": "src/**", "exact-relative": "src/" + tname, "substring": stem,
+               "non-matching": "**/no_such_file_anywhere.xyz"}[form]
+    paths = []
+    for n, c in texts.items():
+        (d / "src" / n).write_text(c)
+        paths.append(d / "src" / n)
+    base_cfg = {"dry": {"enabled": True}}
+    cfg = {"dry": {"enabled": True}}
+    cfg.setdefault(spelled, {})
+    if section == "dry":
+        cfg.pop("dry", None)
+        cfg[spelled] = {"enabled": True}
+    key = "ignore"
+    cfg[spelled][key] = [pattern]
+    try:
+        ign.clear_ignore_parser_cache()
+        base = Orchestrator(project_root=d, config=_normalize_config_keys(base_cfg)).lint_files(paths)
+        ign.clear_ignore_parser_cache()
+        got = Orchestrator(project_root=d, config=_normalize_config_keys(cfg)).lint_files(paths)
+    finally:
+        for p in paths:
+            p.unlink()
+    target = str(d / "src" / tname)
+
+    def k(v):
+        return (v.rule_id, v.file_path, v.line, v.message)
+    own_base = [v for v in base if v.rule_id.startswith(prefix) and v.file_path == target]
+    own_got = [v for v in got if v.rule_id.startswith(prefix) and v.file_path == target]
+    others_base = Counter(k(v) for v in base if not v.rule_id.startswith(prefix))
+    others_got = Counter(k(v) for v in got if not v.rule_id.startswith(prefix))
+    ctx.note("linter", section)
+    ctx.note("pattern_form", form)
+    ctx.require("trigger-fires-without-the-pattern", len(own_base) >= 1, linter=section, trigger=tname)
+    if form == "non-matching":
+        ctx.cover("unchanged")
+        ctx.require("non-matching-ignore-pattern-changes-nothing", Counter(map(k, own_got)) == Counter(map(k, own_base)), linter=section)
+    else:
+        ctx.cover("ignored")
+        ctx.require("matching-ignore-pattern-silences-the-linter-for-that-file", not own_got, linter=section, pattern=pattern,
+                    still=[(v.rule_id, v.line) for v in own_got][:3])
+    ctx.require("other-linters-unaffected", others_got == others_base, linter=section, pattern=pattern)
+
+
 ASSUMPTIONS = (
     "documented scope: same-line <=> the violation's line; ignore-next-line <=> the following line; ignore-start/ignore-end <=> strictly between; ignore-file <=> directive within the first ten lines",
     "file-header and lazy-ignores findings are left out of the before/after comparison (inserting a comment line is their subject)",
@@ -280,4 +351,8 @@ def obligations(tier):
            functions=["Orchestrator.lint_files", "every rule's check() and its use of the ignore parser"],
            bounds="forked: %d catalogue triggers (rule x language) x 8 directive forms/placements x 3 spellings; nothing symbolic (parser in the loop)" % (len(triggers.T) - 1),
            timeout=900, workers=14, must_cover=("suppressed", "unchanged")),
+        Ob(name="K4-linter-level-ignore-patterns", engine="pathex", harness=h_linter_ignore,
+           functions=["every rule's ignore-pattern handling (_is_file_ignored / is_ignored_path / _matches_pattern / DRY ignore_patterns ...)", "Orchestrator.lint_files"],
+           bounds="forked: %d (linter section, trigger) pairs x 4 documented pattern forms (**/name, dir/**, exact relative path, substring) + a non-matching pattern x key spelling" % len(IGNORE_SECTIONS),
+           timeout=900, workers=14, must_cover=("ignored", "unchanged")),
     ]
